@@ -153,12 +153,36 @@ func qtObserve(q *quadtree.Quadtree, e *qtEv, qs *qtQueries, bufs bool) {
 		lims[md] = []float64{qs.m.dist(md)}
 		return lims[md]
 	}
-	// a result belongs to the caller: what the caller does to it afterwards (here: wipes it) is nobody else's business
-	wipe := func(res []orb.Pointer) {
-		for i := range res {
-			res[i] = nil
-		}
+	// a result belongs to the caller: it must still hold what it held when it was returned once all the other queries
+	// of the observation have run (results do not live in memory that later queries reuse), and what the caller does
+	// to it afterwards (here: wipes it) is nobody else's business
+	type heldRes struct {
+		res []orb.Pointer
+		ids []int
 	}
+	var held []heldRes
+	wipe := func(res []orb.Pointer) {
+		ids := make([]int, len(res))
+		for i, x := range res {
+			ids[i] = qtID(x)
+		}
+		held = append(held, heldRes{res, ids})
+	}
+	defer func() {
+		for _, h := range held {
+			for i, x := range h.res {
+				if qtID(x) != h.ids[i] {
+					e.Inb = append(e.Inb, []int{0, 0, 0, 0, 1, 0, -3}) // an earlier result was overwritten: no model accepts this row
+					break
+				}
+			}
+		}
+		for _, h := range held {
+			for i := range h.res {
+				h.res[i] = nil
+			}
+		}
+	}()
 	for _, f := range qs.filters {
 		ff := accept(f)
 		for _, qp := range qs.pts {
@@ -373,8 +397,12 @@ func init() {
 				m = qtRankedMap(c)
 				off, lo, hi = 0, m.lo, m.hi
 			}
-			bnd := [4]int{lo, lo, hi, hi}
-			q := quadtree.New(orb.Bound{Min: m.pt([2]int{lo, lo}), Max: m.pt([2]int{hi, hi})})
+			hiY := hi // every fourth tree is twice as wide as it is high (x and y limits must not be mixed up)
+			if hI%4 == 1 && (m == nil || !m.ranked) {
+				hiY = lo + (hi-lo)/2
+			}
+			bnd := [4]int{lo, lo, hi, hiY}
+			q := quadtree.New(orb.Bound{Min: m.pt([2]int{lo, lo}), Max: m.pt([2]int{hi, hiY})})
 			coord := func() int {
 				if m != nil && m.ranked {
 					if c.rng.Intn(12) == 0 {
